@@ -830,3 +830,4 @@ RENAME_FUNCS = [(PL, 'BasePerformance._from_quantized_sequence'), (ML, 'Melody.f
 EXPLANATION += (' Shared with C06 / C09 for the performance renderers: GRID, ORIGIN/start-step-once, RENDER/note-off-ends-one, VEL/bin-size.' + ' Location-independent additions: ROLL/gap-index-in-range (a store into row O-1 needs 0 < O; found F26), ROLL/pitch-range-inclusive (boundary scenarios pitch == min/max +-1), CHORD/previous-step (a carried step is never a clamped constant), MEL/gap-bar-length, DRUM/gap normal form.')
 EXPLANATION += (' Round 7: ' + 'PITFALL/falsy-domain-zero over the extractor modules; CHORD/symbols-all-read and the performance renderer rules shared with C06 / C09.')
 EXPLANATION += (' Rounds 9-10: ' + 'PAD/next-bar-line (closing block of Melody / DrumTrack extraction evaluated on seven lengths); PITFALL/unforwarded-parameter, PITFALL/dead-parameter.')
+EXPLANATION += (' Round 12: ' + 'MELODY/pitch-zero-is-a-note; PAD/next-bar-line finds the closing block under `if self._events:`.')
